@@ -27,6 +27,7 @@ from typing import ClassVar
 
 from numpy import abs as np_abs
 from numpy import concatenate
+from numpy import isfinite
 from numpy import ndarray
 from numpy import zeros
 
@@ -161,7 +162,11 @@ class IDF(BaseMDOFormulation):
         for output in output_couplings:
             u_b = self.optimization_problem.design_space.get_upper_bound(output)
             l_b = self.optimization_problem.design_space.get_lower_bound(output)
-            norm_fact.append(np_abs(u_b - l_b))
+            factor = np_abs(u_b - l_b)
+            # A coupling variable without finite bounds has no range to scale with:
+            # an infinite factor would make its consistency constraint vanish everywhere.
+            factor[~isfinite(factor)] = 1.0
+            norm_fact.append(factor)
         return concatenate(norm_fact)
 
     def _build_constraints(self) -> None:
